@@ -49,7 +49,11 @@ static void on_instant(long t, const TimeZone* zones, int nz) {
     long lt = t + offs[k] * 60L;
     OffsetDateTime odt = OffsetDateTime::forEpochSeconds(e, TimeOffset::forMinutes(offs[k]));
     nops++;
-    if (sentinel) { if (!odt.isError()) fail("OffsetDateTime::forEpochSeconds(sentinel) not error", t, offs[k], 0); continue; }
+    if (sentinel) {
+      if (!odt.isError()) fail("OffsetDateTime::forEpochSeconds(sentinel) not error", t, offs[k], 0);
+      if (!OffsetDateTime::forUnixSeconds(e, TimeOffset::forMinutes(offs[k])).isError()) fail("OffsetDateTime::forUnixSeconds(sentinel) not error", t, offs[k], 0);
+      continue;
+    }
     sink += odt.toUnixSeconds(); sink += OffsetDateTime::forUnixSeconds(e, TimeOffset::forMinutes(offs[k])).isError();
     if (lt < INT32_MIN + 1 || lt > INT32_MAX) continue;    // the *semantic* claims below need e + offset representable (C05's precondition)
     if (odt.isError()) { fail("OffsetDateTime::forEpochSeconds(valid) is error", t, offs[k], 0); continue; }
@@ -60,6 +64,13 @@ static void on_instant(long t, const TimeZone* zones, int nz) {
     ZonedDateTime zdt = ZonedDateTime::forEpochSeconds(e, zones[z]);
     nops++;
     if (sentinel && !zdt.isError()) fail("ZonedDateTime::forEpochSeconds(sentinel) not error", t, z, 0);
+    // the Unix-seconds factory: the sentinel is the sentinel there too; other values where the epoch shift is representable
+    if (sentinel || t >= (long) INT32_MIN + 946684800L) {
+      ZonedDateTime zu = ZonedDateTime::forUnixSeconds(e, zones[z]);
+      nops++;
+      if (sentinel && !zu.isError()) fail("ZonedDateTime::forUnixSeconds(sentinel) not error", t, z, 0);
+      if (!sentinel && !zu.isError() && (long) zu.toUnixSeconds() != t) fail("ZonedDateTime::forUnixSeconds round trip", t, z, zu.toUnixSeconds());
+    }
     if (!zdt.isError()) {
       if ((long) zdt.toEpochSeconds() != t) fail("ZonedDateTime round trip", t, z, zdt.toEpochSeconds());
       sink += zdt.toUnixSeconds();
@@ -207,6 +218,27 @@ static int components() {
       if (n < 8 && !e.isError()) fail("too-short time string parsed", (long) n, 0, 4);
       if (n < 6 && !f.isError()) fail("too-short offset string parsed", (long) n, 0, 5);
       sink += a.isError() + b.isError() + c.isError() + d.isError() + e.isError() + f.isError();
+      // the flash-string overloads copy into a fixed buffer: every length, also beyond the buffer (each string lives in
+      // an exactly sized heap block, so that a read or write past its end is seen by the sanitizer)
+      {
+        char* heap = (char*) malloc(n + 1); memcpy(heap, s.c_str(), n + 1);
+        const __FlashStringHelper* fs = (const __FlashStringHelper*) heap;
+        LocalDateTime fb = LocalDateTime::forDateString(fs); OffsetDateTime fc = OffsetDateTime::forDateString(fs); ZonedDateTime fd = ZonedDateTime::forDateString(fs);
+        nops += 3;
+        if ((n < 19 || n > 19) && !fb.isError()) fail("flash-string date-time of a wrong length parsed", (long) n, 0, 6);
+        if ((n < 25 || n > 25) && (!fc.isError() || !fd.isError())) fail("flash-string offset/zoned date-time of a wrong length parsed", (long) n, 0, 7);
+        free(heap);
+      }
+    }
+    // ... and much longer than any buffer
+    for (size_t n : {(size_t) 26, (size_t) 27, (size_t) 28, (size_t) 40, (size_t) 64, (size_t) 300}) {
+      std::string s = full; while (s.size() < n) s += "0123456789"[s.size() % 10]; s.resize(n);
+      char* heap = (char*) malloc(n + 1); memcpy(heap, s.c_str(), n + 1);
+      const __FlashStringHelper* fs = (const __FlashStringHelper*) heap;
+      LocalDateTime fb = LocalDateTime::forDateString(fs); OffsetDateTime fc = OffsetDateTime::forDateString(fs); ZonedDateTime fd = ZonedDateTime::forDateString(fs);
+      nops += 3;
+      if (!fb.isError() || !fc.isError() || !fd.isError()) fail("flash-string text longer than the documented length parsed", (long) n, 0, 8);
+      free(heap);
     }
   }
   printf("{\"done\":1,\"nops\":%ld,\"nfail\":%ld}\n", nops, nfail);
